@@ -291,6 +291,13 @@ def _hier(pdk, depth, share, twice, form):
     before, bl = pkg_nets(h.to_proto(m), with_params=False)
     env.COUNTS["reached"] += 1
     import hdl21.pdk as hp
+    if twice:
+        # unrelated earlier work on the same module objects: a read-only walk of the hierarchy (public hdl21.walker API)
+        try:
+            from hdl21.walker import HierarchyWalker
+            HierarchyWalker().visit_elaboratables(m)
+        except ImportError:
+            pass
     if not _reset_registry(hp) and form != 0:
         return True  # the PDK registry cannot be emptied from outside (internals changed): registry forms are not exercised
     try:
@@ -423,7 +430,7 @@ def model(pi, tb, idx, sized, mult):
 
 @harness("C15", also=("C06",), args="pi: int, depth: int, share: bool, twice: bool, form: int", pre=["0 <= pi <= 3", "0 <= depth <= 1", "0 <= form <= 5"],
          tiers={"quick": {"timeout": 170, "parts": parts_over("pi", range(4))}}, sample=(0, 1, True, True, 3),
-         bounds="a 3-level hierarchy with shared sub-modules, generic Mos instances at every level next to ideal primitives and an external module; 4 PDKs; compile directly / as the default PDK / by name with two PDKs registered / by module / by name or module while ANOTHER registered PDK is the default; every indirect form must equal the PDK's own compile(); once or twice: leaf-level connectivity, instance names and non-mapped instances unchanged, equal parameters give one call object, package closed, netlists emit",
+         bounds="a 3-level hierarchy with shared sub-modules, generic Mos instances at every level next to ideal primitives and an external module; 4 PDKs; compile directly / as the default PDK / by name with two PDKs registered / by module / by name or module while ANOTHER registered PDK is the default; every indirect form must equal the PDK's own compile(); once or twice (then also after a read-only walk of the same hierarchy): leaf-level connectivity, instance names and non-mapped instances unchanged, equal parameters give one call object, package closed, netlists emit",
          generalises="shape / registry selectors (solver-enumerated)", outside="")
 def compile_hier(pi, depth, share, twice, form):
     P = env.pick
